@@ -98,4 +98,11 @@ CHECKS = {
          "every expression tree with <= 1 (quick) / <= 2 (thorough) operators through pickle and through Solution.to_hdf5/from_hdf5; 4-6 physics inputs x {on disk, memory only} with every recorded step, the dynamics and the reloaded callables compared. "
          "Comparison is strict (bitwise arrays, None only equal to None, polygons by name) and includes the library's own == and behaviour (terminal_info, contains_points lattice, parameter values and flags)."),
    note="gpu / umfpack / pardiso / cupy option values cannot be validated in this sandbox; Solution.to_hdf5(save_mesh=False) files are not self-contained and are outside the alphabet"),
+ "C18": dict(
+   engine="mc-core", category="exploration", design_ref="DESIGN.md 3/C18",
+   technique="exhaustive enumeration of geometry programs (constructions, pairs and chains of set operations, transforms) checked point-wise on a fixed probe lattice by an independent point-in-polygon oracle",
+   text=("Every shape x input form/orientation; every ordered pair of shapes x {union, intersection, difference, +, -, *} x operand form; every chain of three shapes x pairs of operations; every rotation (7 angles x 4 origins), translation and "
+         "scale/reflection (25 factor pairs) in place and not; device membership and copy/scale/rotate/translate. After each program: vertices closed and counter-clockwise, membership of the result equals the Boolean combination of operand memberships "
+         "at every probe (even-odd ray casting, probes within 1e-6 of an outline removed), raising only when shapely's result is empty/multi-part/holed, area laws to 1e-9, points map with the shape, originals byte-identical and unaliased."),
+   note="shapes limited to the primitive alphabet; probe lattice fixed (41x41, irrational offset); degenerate slivers of exactly empty results (area < 1e-9) are not decided"),
 }
